@@ -121,6 +121,7 @@ func C17(p *core.Program, r *core.Report) {
 	r.Min("TCPCLv4 message pairs", 8)
 	r.Count("TCPCLv4 message pairs", nMsg)
 
+	checkSharedAppend(p, r)
 	checkTCPCLCodes(p, r, msgTypes)
 	checkWamCodes(p, r)
 	checkInvalidRejected(p, r)
@@ -186,7 +187,8 @@ func checkLengthPrefix(p *core.Program, r *core.Report, cp codecPair, enc, dec [
 				}
 			})
 		}
-		r.Check(okE && okD && headLen == 5, "length-prefix/"+cp.name, "the contact header is 5 bytes magic+version plus one flags byte on both sides", p.Pos(cp.enc.Pos()), "", fmt.Sprintf("encoder appends one byte to the head: %v, decoder reads 6 bytes: %v, head length %d", okE, okD, headLen))
+		okHead := headLen == 5 || headLen == -1 // -1: not a plain literal, length not determinable here
+		r.Check(okE && okD && okHead, "length-prefix/"+cp.name, "the contact header is 5 bytes magic+version plus one flags byte on both sides", p.Pos(cp.enc.Pos()), "", fmt.Sprintf("encoder appends one byte to the head: %v, decoder reads 6 bytes: %v, head length %d", okE, okD, headLen))
 		return
 	}
 	hasBytes := false
@@ -719,4 +721,63 @@ func checkBundleIDLen(p *core.Program, r *core.Report) {
 		}
 	})
 	r.Check(okF && n == 2, "announced-length/StatusReport/fragment-from-length", "the status report decoder takes the referenced bundle for a fragment exactly when the array has 6 elements", p.Pos(sr.Pos()), "", "IsFragment is not set from the array length 4/6")
+}
+
+// checkSharedAppend: `append(pkgLevelSlice, x...)` copies only if the slice
+// has no spare capacity. Encoders that build their output this way (the
+// contact header) are used by several sessions concurrently; with spare
+// capacity they all write into the one shared backing array. The
+// package-level slice must therefore be initialised with exact capacity: a
+// composite literal (or a full slice expression).
+func checkSharedAppend(p *core.Program, r *core.Report) {
+	n := 0
+	for _, fn := range p.RepoFuncs() {
+		core.EachInstr(fn, func(in ssa.Instruction) {
+			c, ok := in.(*ssa.Call)
+			if !ok {
+				return
+			}
+			b, ok := c.Common().Value.(*ssa.Builtin)
+			if !ok || b.Name() != "append" {
+				return
+			}
+			ld, ok := c.Common().Args[0].(*ssa.UnOp)
+			if !ok {
+				return
+			}
+			g, ok := ld.X.(*ssa.Global)
+			if !ok || !core.IsRepo(fn) {
+				return
+			}
+			n++
+			exact := true
+			why := ""
+			stores := 0
+			scan := append([]*ssa.Function{}, p.RepoFuncs()...)
+			if initFn := g.Pkg.Func("init"); initFn != nil {
+				scan = append(scan, initFn)
+			}
+			for _, f2 := range scan {
+				core.EachInstr(f2, func(in2 ssa.Instruction) {
+					st, ok := in2.(*ssa.Store)
+					if !ok || st.Addr != ssa.Value(g) {
+						return
+					}
+					stores++
+					sl, isSl := st.Val.(*ssa.Slice)
+					if !isSl {
+						exact, why = false, "initialised by "+valStr(st.Val)+" at "+p.Pos(st.Pos())+" (capacity may exceed length)"
+						return
+					}
+					if _, isArr := sl.X.(*ssa.Alloc); !isArr || (sl.High != nil && sl.Max == nil) {
+						exact, why = false, "initialised by a slice expression without exact capacity at "+p.Pos(st.Pos())
+					}
+				})
+			}
+			// the appended result must not be stored back into the global either
+			r.Check(exact && stores > 0, "no-shared-append/"+fname(fn)+"/"+g.Name(), "append() on a package-level slice is only safe for concurrent encoders if the slice has no spare capacity (composite literal): otherwise every call writes into the shared backing array and two sessions marshalling at the same time send each other's bytes", p.Pos(c.Pos()), "exact-capacity literal", why)
+		})
+	}
+	r.Min("appends on package-level slices", 1)
+	r.Count("appends on package-level slices", n)
 }
